@@ -175,41 +175,73 @@ func (a *effAnalysis) roots(v ssa.Value, seen map[ssa.Value]bool) *rootSet {
 			r.add(a.roots(e, seen))
 		}
 	case *ssa.UnOp:
-		// load: the value comes out of memory
-		if al, ok := v.X.(*ssa.Alloc); ok {
+		// load: the value comes out of memory.  A pointer loaded from a field or
+		// element of an object is attributed to that object ("reachable from").
+		switch ad := v.X.(type) {
+		case *ssa.Alloc:
 			// a local cell: union over everything stored into it in this function
 			stored := false
-			for _, ref := range *al.Referrers() {
+			for _, ref := range *ad.Referrers() {
 				switch ref := ref.(type) {
 				case *ssa.Store:
-					if ref.Addr == al {
+					if ref.Addr == ad {
 						stored = true
 						r.add(a.roots(ref.Val, seen))
 					}
-				case *ssa.UnOp, *ssa.DebugRef:
-				default:
-					// address escapes (closure, call, field address …): be conservative
-					// unless it is only used to address a sub-object that is loaded/stored locally
-					switch ref.(type) {
-					case *ssa.FieldAddr, *ssa.IndexAddr:
-						// sub-object of the local variable: values stored there are not tracked
-						if isPointerLike(v.Type()) {
-							// loading a pointer that may have been written through the sub-address
+				case *ssa.MakeClosure:
+					// captured: closures may store other values into it
+					fn := ref.Fn.(*ssa.Function)
+					for i, b := range ref.Bindings {
+						if b == ssa.Value(ad) && i < len(fn.FreeVars) {
+							for _, fr := range *fn.FreeVars[i].Referrers() {
+								if st, ok := fr.(*ssa.Store); ok && st.Addr == ssa.Value(fn.FreeVars[i]) {
+									stored = true
+									r.add(a.roots(st.Val, seen))
+								}
+							}
 						}
-					case *ssa.MakeClosure:
-						r.heap = true
-					case ssa.CallInstruction:
-						r.heap = true
 					}
 				}
 			}
 			if !stored {
 				r.local = true // zero value
 			}
-		} else if _, ok := v.X.(*ssa.FreeVar); ok {
-			// value of a captured variable: unknown unless not pointer-like
-			r.heap = true
-		} else {
+		case *ssa.FieldAddr, *ssa.IndexAddr:
+			var base ssa.Value
+			if fa, ok := ad.(*ssa.FieldAddr); ok {
+				base = fa.X
+			} else {
+				base = ad.(*ssa.IndexAddr).X
+			}
+			// a local object: what was stored into its fields/elements in this function
+			if al, ok := base.(*ssa.Alloc); ok {
+				r.local = true
+				for _, ref := range *al.Referrers() {
+					var sub ssa.Value
+					switch ref := ref.(type) {
+					case *ssa.FieldAddr:
+						sub = ref
+					case *ssa.IndexAddr:
+						sub = ref
+					}
+					if sub == nil {
+						continue
+					}
+					for _, rr := range *sub.Referrers() {
+						if st, ok := rr.(*ssa.Store); ok && st.Addr == sub {
+							r.add(a.roots(st.Val, seen))
+						}
+					}
+				}
+			} else {
+				r.add(a.roots(base, seen))
+			}
+		case *ssa.FreeVar:
+			// value of a captured variable of the enclosing function
+			r.captured = true
+		case *ssa.Global:
+			r.globals = map[string]bool{globalName(ad): true}
+		default:
 			r.heap = true
 		}
 	case *ssa.Lookup, *ssa.Index, *ssa.Field, *ssa.Extract, *ssa.Next:
@@ -221,6 +253,20 @@ func (a *effAnalysis) roots(v ssa.Value, seen map[ssa.Value]bool) *rootSet {
 		if ex, ok := v.(*ssa.Extract); ok {
 			r.add(a.roots(ex.Tuple, seen))
 			break
+		}
+		if lk, ok := v.(*ssa.Lookup); ok {
+			r.add(a.roots(lk.X, seen))
+			break
+		}
+		if ix, ok := v.(*ssa.Index); ok {
+			r.add(a.roots(ix.X, seen))
+			break
+		}
+		if nx, ok := v.(*ssa.Next); ok {
+			if rg, ok := nx.Iter.(*ssa.Range); ok {
+				r.add(a.roots(rg.X, seen))
+				break
+			}
 		}
 		r.heap = true
 	case *ssa.Call:
@@ -291,7 +337,7 @@ func (a *effAnalysis) returnsFresh(fn *ssa.Function) bool {
 		for _, ins := range b.Instrs {
 			if ret, isRet := ins.(*ssa.Return); isRet {
 				for _, res := range ret.Results {
-					if !isPointerLike(res.Type()) {
+					if !isPointerLike(res.Type()) || types.Identical(res.Type(), types.Universe.Lookup("error").Type()) {
 						continue
 					}
 					if !a.roots(res, map[ssa.Value]bool{}).onlyLocal() {
